@@ -24,12 +24,39 @@ var (
 	DeadlineExceeded = context.DeadlineExceeded
 )
 
-func Background() Context                              { return context.Background() }
-func TODO() Context                                    { return context.TODO() }
-func WithValue(p Context, k, v any) Context            { return context.WithValue(p, k, v) }
-func WithoutCancel(p Context) Context                  { return context.WithoutCancel(p) }
-func Cause(c Context) error                            { return context.Cause(c) }
-func AfterFunc(c Context, f func()) (stop func() bool) { return context.AfterFunc(c, f) }
+func Background() Context                   { return context.Background() }
+func TODO() Context                         { return context.TODO() }
+func WithValue(p Context, k, v any) Context { return context.WithValue(p, k, v) }
+func WithoutCancel(p Context) Context       { return context.WithoutCancel(p) }
+func Cause(c Context) error                 { return context.Cause(c) }
+
+// AfterFunc mirrors context.AfterFunc for contexts of the instrumented world:
+// once c is done, f runs in a thread of its own (a thread the scheduler knows).
+func AfterFunc(c Context, f func()) (stop func() bool) {
+	v, ok := c.Value(&key).(*vctx)
+	if !vrt.Active() || !ok || v == nil {
+		return context.AfterFunc(c, f)
+	}
+	a := &afterFn{f: f}
+	if v.Err() != nil {
+		a.started = true
+		vrt.GoNamed("context.AfterFunc", f)
+	} else {
+		v.addAfter(a)
+	}
+	return func() bool {
+		if a.started || a.stopped {
+			return false
+		}
+		a.stopped = true
+		return true
+	}
+}
+
+type afterFn struct {
+	f                func()
+	started, stopped bool
+}
 
 type keyT struct{}
 
@@ -42,6 +69,7 @@ type vctx struct {
 	done     chan struct{}
 	err      atomic.Pointer[errBox]
 	children []*vctx // touched only by the running thread (norace helpers)
+	after    []*afterFn
 	deadline time.Time
 	hasDl    bool
 	tm       *vrt.Timer
@@ -74,6 +102,12 @@ func (c *vctx) addChild(ch *vctx) { c.children = append(c.children, ch) }
 //go:norace
 func (c *vctx) kids() []*vctx { return c.children }
 
+//go:norace
+func (c *vctx) addAfter(a *afterFn) { c.after = append(c.after, a) }
+
+//go:norace
+func (c *vctx) afters() []*afterFn { return c.after }
+
 // cancel closes c and its descendants (no scheduling point).
 func (c *vctx) cancel(err error) {
 	if !c.err.CompareAndSwap(nil, &errBox{err}) {
@@ -82,6 +116,12 @@ func (c *vctx) cancel(err error) {
 	close(c.done)
 	if c.tm != nil {
 		c.tm.Stop()
+	}
+	for _, a := range c.afters() {
+		if !a.stopped && !a.started {
+			a.started = true
+			vrt.GoNamed("context.AfterFunc", a.f)
+		}
 	}
 	for _, k := range c.kids() {
 		k.cancel(err)
